@@ -249,13 +249,31 @@ def priority(T: Trace, case: Dict[str, Any], stats: Optional[Dict[str, int]] = N
         return []
     K = Know(T)
     bad: List[Finding] = []
+    exit_seq = {M.site_of_key.get(e["site"], e["site"]): e["seq"] for e in T.ev if e["k"] == "EXIT" and e["ok"]}
     for item in K.walk():
         if item[0] != "dispatch":
             continue
         _, seq, n, how, dispatched, known = item
         if n is None or n not in M.cp:
             continue
+        # under the controller a pooled node only finishes inside one of the scheduler's own wait calls, and every
+        # wait sequence of the scheduler ends by collecting what has finished: at a dispatch, "finished" (the
+        # property's wording) and "collected" coincide.  A node that finished before this dispatch but was not
+        # collected hides a ready successor from the choice.
+        finished = {s for s, q in exit_seq.items() if q < seq}
+        ready_lit, _u = K.ready(dispatched, known | finished)
+        hidden = [m for m in ready_lit if m != n and M.cp[m] > M.cp[n]]
         ready, _unsure = K.ready(dispatched, known)
+        if hidden and not [m for m in ready if m != n and M.cp[m] > M.cp[n]]:
+            late = sorted(s for s in finished - known if s in M.res and M.pooled(s))
+            bad.append((
+                "priority-uncollected",
+                f"{n} (compound priority {M.cp[n]}) was started while {sorted(hidden)} (compound priority "
+                f"{[M.cp[m] for m in sorted(hidden)]}) had all their dependencies finished: {late} had finished in an "
+                f"earlier wait of the scheduler but had not been collected; dispatched so far {dispatched}",
+                None,
+            ))
+            break
         others = [m for m in ready if m != n]
         if stats is not None and others:
             stats["decisions"] = stats.get("decisions", 0) + 1
